@@ -391,8 +391,12 @@ fn derive_call_shape(def: &CallDef, symbol_table: &mut BTreeMap<Rc<str>, Shape>)
             for (arg_name, arg_expr) in fdef.arg_order.iter().zip(def.arglist.iter()) {
                 let actual_shape = arg_expr.derive_shape(symbol_table);
                 if let Some(declared_shape) = fdef.args.get(arg_name) {
+                    // Narrowing an untyped parameter records what it was narrowed to under
+                    // the parameter's name: that belongs to the function, not to the
+                    // caller's bindings, so it is done on a copy of the table.
+                    let mut callee_table = symbol_table.clone();
                     if let Shape::TypeErr(pos, msg) =
-                        declared_shape.narrow(&actual_shape, symbol_table)
+                        declared_shape.narrow(&actual_shape, &mut callee_table)
                     {
                         return Shape::TypeErr(pos, msg);
                     }
